@@ -72,6 +72,10 @@ class Hub:
     # ---- task management -----------------------------------------------------------
     def spawn(self, fn, *args, name=None, **kwargs):
         t = Task(self, fn, args, kwargs, name=name)
+        cp = getattr(self, 'child_proc', None)
+        key = (getattr(self.current, 'proc', None), getattr(fn, '__name__', ''))
+        if cp and key in cp:
+            t.proc = cp.pop(key)      # L2: the thread of that name started by that task
         self.tasks.append(t)
         self.ready.append((t, None))
         return t
